@@ -111,10 +111,35 @@ def run_runner(binary, case_text, workdir, args, timeout=600):
     for line in reversed(out):
         if line.startswith("{"):
             try:
-                return json.loads(line)
+                res = json.loads(line)
             except Exception:
-                pass
+                continue
+            v = res.get("violation")
+            if v and "pc 0x" in v.get("detail", ""):
+                v["detail"] = resolve_pcs(binary, v["detail"])
+            return res
     raise RuntimeError("runner produced no result: rc=%s stdout=%r stderr=%r" % (p.returncode, p.stdout[-500:], p.stderr[-500:]))
+
+
+_pc_cache = {}
+
+
+def resolve_pcs(binary, text):
+    """replace 'pc 0x...' by 'pc 0x... = function at file:line' using addr2line (non-PIE binary)"""
+    def sub(m):
+        pc = m.group(1)
+        key = (binary, pc)
+        if key not in _pc_cache:
+            try:
+                out = subprocess.run(["addr2line", "-f", "-i", "-e", os.path.join(BUILD, binary), pc], stdout=subprocess.PIPE, timeout=20).stdout.decode().split("\n")
+                parts = []
+                for i in range(0, len(out) - 1, 2):
+                    parts.append("%s at %s" % (out[i], os.path.basename(out[i + 1].split(" ")[0])))
+                _pc_cache[key] = " <- ".join(parts[:3])
+            except Exception:
+                _pc_cache[key] = "?"
+        return "pc %s = %s" % (pc, _pc_cache[key])
+    return re.sub(r"pc (0x[0-9a-f]+)(?! =)", sub, text)
 
 
 def load_known(prop):
